@@ -13,6 +13,10 @@ The fault engine enumerates fault operators over the bytes of the two real .nzd 
                       both encodings (00, 80 00, 01, 81 00), equal to / before the predecessor, min/max real instants and
                       beyond, raw form; counts 0/1/n+-1; name and id indexes outside the pool; offsets +-18h, +-18h+-1s,
                       +-(24h-1ms); tail flag toggled with / without the tail bytes; non-minimal re-encoding of every varint
+                      The same for the non-zone fields (string pool, version, id map, Windows zones, zone locations): pool indexes
+                      := 0, 1, v+-1, the index of "001" / "ZZ" / "", outside the pool, 2^31-1, 2^31; list counts and string
+                      lengths := 0, 1, n+-1, 2^31-1 with the bytes kept, list emptied / last element removed / doubled with
+                      the bytes adjusted; coordinates := +-90/180 degrees +-1 s and the int32 ends; non-minimal varints
     IdMap / PoolStr   structure-aware Sub^k (k<=4, lengths kept): alias entries of the id map re-pointed to another alias, to
                       themselves, to a non-id string, in 2-cycles and 3-cycles; id strings of the pool with a meaningful token
                       ("UTC", "UTC+", "GMT", "Etc/", "+", "-", ":", digits) written over their first / last characters
@@ -1153,6 +1157,83 @@ def value_faults(fc, f, mode, donor_tail):
     return out
 
 
+def nonzone_variants(fc, pl, e, specials):
+    """[(tag, payload start, payload end, replacement hex)] for one decoded element of a non-zone field"""
+    a, b, role, v = e["a"], e["b"], e["role"], e["value"]
+    orig = pl[a:b]
+    npool = len(fc.pool)
+    out = []
+
+    def enc(x):
+        return M.enc_varint(x).hex()
+    if role == "index":
+        out += [("special", a, b, enc(x)) for x in specials]
+        out += [("value", a, b, enc(x)) for x in (0, 1, v + 1, v - 1, npool, npool + 1, M.INT_MAX, M.INT_MAX + 1) if x >= 0]
+        out.append(("nonminimal", a, b, _nonminimal(orig)))
+    elif role == "signed":
+        for x in (0, 324000, -324000, 324001, -324001, 648000, -648000, 648001, -648001, M.INT_MAX, M.INT_MIN):
+            out.append(("value", a, b, M.enc_signed(x).hex()))
+        out.append(("nonminimal", a, b, _nonminimal(orig)))
+    elif role in ("count", "strlen"):
+        items = e.get("items") or []
+        end = items[-1][1] if items else b
+        out += [("value", a, b, enc(x)) for x in (0, 1, v + 1, v - 1, M.INT_MAX) if x >= 0]      # count changed, bytes kept
+        out.append(("nonminimal", a, b, _nonminimal(orig)))
+        if role == "count" and items:
+            out.append(("drop", a, end, enc(0)))                                                  # list emptied
+            out.append(("drop", a, end, enc(v - 1) + pl[b:items[-1][0]].hex()))                   # last element removed
+            out.append(("grow", a, end, enc(v + 1) + pl[b:end].hex() + pl[items[-1][0]:end].hex()))   # last element doubled
+        elif role == "strlen" and v > 0:
+            out.append(("drop", a, end, enc(0)))
+            out.append(("drop", a, end, enc(v - 1) + pl[b:end - 1].hex()))
+            out.append(("grow", a, end, enc(v + 1) + pl[b:end].hex() + "41"))
+    res = []
+    seen = set()
+    for tag, x, y, hx in out:
+        if bytes.fromhex(hx) == pl[x:y] or (x, y, hx) in seen:
+            continue
+        seen.add((x, y, hx))
+        res.append((tag, x, y, hx))
+    return res
+
+
+def nonzone_value_faults(fc, f, mode):
+    """value-level faults for a non-zone field (string pool, version, id map, Windows zones, zone locations).
+    full: every element, whole set.   lite: every list count (top-level lists: whole set; inner lists: emptied, count 0 /
+    n+1 with the bytes kept, non-minimal); the index in front of every inner list := each special string ("001", "ZZ", "");
+    the first and last 8 indexes, 4 numbers and 3 inline strings with their whole sets."""
+    pl = F.payload(fc.data, f)
+    try:
+        els = M.field_elements(f.fid, pl)
+    except M.Bad:
+        return []
+    specials = [fc.pool.index(x) for x in ("001", "ZZ", "") if x in fc.pool]
+    by_role = {}
+    for e in els:
+        by_role.setdefault(e["role"], []).append(e)
+    edge = set()
+    for role, n in (("index", 8), ("signed", 4), ("strlen", 3)):
+        lst = by_role.get(role, [])
+        edge |= {id(e) for e in lst[:n] + lst[-n:]}
+    out = []
+    for i, e in enumerate(els):
+        vs = nonzone_variants(fc, pl, e, specials)
+        if mode != "full":
+            top = i == 0 or (f.fid == 4 and i == 3)
+            if e["role"] == "count" and top:
+                pass
+            elif e["role"] == "count":
+                vs = [r for r in vs if r[0] == "nonminimal" or (r[0] == "drop" and r[3] == "00") or (r[0] == "value" and r[3] in ("00", M.enc_varint(e["value"] + 1).hex()))]
+            elif id(e) in edge:
+                pass
+            elif e["role"] == "index" and i + 1 < len(els) and els[i + 1]["role"] == "count":
+                vs = [r for r in vs if r[0] == "special"]
+            else:
+                vs = []
+        out += [(f.index,) + r[1:] for r in vs]
+    return out
+
+
 def value_fault_to_stream(fc, j, a, b, hx):
     """payload splice -> (new payload, file-level fault with the field's length varint recomputed so the framing stays valid)"""
     f = fc.fields[j]
@@ -1281,6 +1362,14 @@ def value_plan(fc, fi, tier, whole, seam_ok):
                 if v not in seen:
                     seen.add(v)
                     faults.append(v)
+    for f in fc.fields:
+        if f.fid in (0, 2, 3, 4, 6, 7):
+            # the string pool costs a full re-feed of all fields per execution: lite there in both tiers
+            mode = "full" if (tier != "quick" and f.fid != 0) else "lite"
+            for v in nonzone_value_faults(fc, f, mode):
+                if v not in seen:
+                    seen.add(v)
+                    faults.append(v)
     per = 150 if seam_ok else 30
     if not seam_ok:
         faults = faults[::8]
@@ -1289,6 +1378,9 @@ def value_plan(fc, fi, tier, whole, seam_ok):
         eq = []
         for f in zf[::16]:
             eq += [v for v in value_faults(fc, f, "lite", donor) if v[0] == f.index][:4]
+        for f in fc.fields:
+            if f.fid in (0, 2, 3, 4, 6, 7):
+                eq += nonzone_value_faults(fc, f, "lite")[:6]
         items += [("vequiv", fi, eq[i:i + 12], True) for i in range(0, len(eq), 12)]
     return items, len(faults)
 
